@@ -24,7 +24,7 @@ import types
 from . import tlc
 from .common import BUILD, jdump
 
-ELEM = {"lint": "int", "lstr": "str"}
+ELEM = {"lint": "int", "lstr": "str", "llint": "lint"}
 
 
 class VerifBase(BaseException):
@@ -454,20 +454,26 @@ def has_alt(e):
 
 # ---------------------------------------------------------------------------------------------------------
 _ATOM = (int, float, str, bytes, bool, type(None))
+_ATOMSET = frozenset(_ATOM)
 
 
 def snapshot(o, seen=None, depth=0):
     """Deep structural snapshot, insensitive to object addresses."""
-    if isinstance(o, _ATOM):
+    t = type(o)
+    if t in _ATOMSET:
         return o
-    if seen is None:
-        seen = set()
+    if t is list or t is tuple:
+        return (t.__name__, tuple([snapshot(x, seen, depth + 1) for x in o]))
+    if t is dict:
+        return ("dict", tuple([(snapshot(k, seen, depth + 1), snapshot(v, seen, depth + 1)) for k, v in o.items()]))
     if depth > 40:
         return "<deep>"
+    if isinstance(o, _ATOM):
+        return o
     if isinstance(o, (list, tuple)):
-        return (type(o).__name__, tuple(snapshot(x, seen, depth + 1) for x in o))
+        return (type(o).__name__, tuple([snapshot(x, seen, depth + 1) for x in o]))
     if isinstance(o, dict):
-        return ("dict", tuple((snapshot(k, seen, depth + 1), snapshot(v, seen, depth + 1)) for k, v in o.items()))
+        return ("dict", tuple([(snapshot(k, seen, depth + 1), snapshot(v, seen, depth + 1)) for k, v in o.items()]))
     if isinstance(o, (set, frozenset)):
         return ("set", tuple(sorted((snapshot(x, seen, depth + 1) for x in o), key=repr)))
     if isinstance(o, type):
@@ -478,6 +484,8 @@ def snapshot(o, seen=None, depth=0):
         return "<tb>"
     if isinstance(o, BaseException):
         return ("exc", type(o).__name__, snapshot(o.args, seen, depth + 1))
+    if seen is None:
+        seen = set()
     if id(o) in seen:
         return "<cycle>"
     seen = seen | {id(o)}
@@ -487,7 +495,7 @@ def snapshot(o, seen=None, depth=0):
     return (
         "obj",
         type(o).__name__,
-        tuple((k, snapshot(v, seen, depth + 1)) for k, v in sorted(d.items())),
+        tuple([(k, snapshot(v, seen, depth + 1)) for k, v in sorted(d.items())]),
     )
 
 
@@ -513,7 +521,7 @@ def verdict(m, val):
 ACTIONS = ["PushLeaf", "Wrap", "Combine"]
 
 
-def tlc_rows(cfg, what, rep=None, actions=ACTIONS, **kw):
+def tlc_rows(cfg, what, rep=None, actions=ACTIONS, want_result=False, **kw):
     """Run TLC on MCMatchers with `cfg`; returns (rows, universe). rows: dicts srt, e, dep, r (verdict per value)."""
     kw.setdefault("workers", 8)
     kw.setdefault("timeout", 1500)
@@ -543,14 +551,32 @@ def tlc_rows(cfg, what, rep=None, actions=ACTIONS, **kw):
     tlc.require_coverage(r, actions, what + " " + cfg)
     if rep is not None:
         rep.add_tlc(r, cfg)
+    if want_result:
+        return rows, uni[0], r
     return rows, uni[0]
+
+
+def tlc_rows_pipeline(jobs, what):
+    """Run the TLC export jobs one after the other in a background thread and yield (cfg, rows, universe, result)
+    in order, so that the single-threaded replay of one job overlaps with TLC (8 workers) running the next."""
+    from concurrent.futures import ThreadPoolExecutor
+
+    with ThreadPoolExecutor(max_workers=1) as ex:
+        futs = [(cfg, ex.submit(tlc_rows, cfg, what, None, want_result=True, **kw)) for cfg, kw in jobs]
+        try:
+            for cfg, fut in futs:
+                rows, uni, r = fut.result()
+                yield cfg, rows, uni, r
+        finally:
+            for _, fut in futs:
+                fut.cancel()
 
 
 def action_of(e):
     """The action of Matchers.tla that produced the root node of an exported expression."""
     for k in ("ms", "kms", "attrs"):
         if k in e:
-            return {1: "Wrap", 2: "Combine", 3: "Combine3"}[len(e[k])]
+            return {0: "PushLeaf", 1: "Wrap", 2: "Combine", 3: "Combine3"}[len(e[k])]  # 0: MatchesAny() / MatchesAll()
     return "Wrap" if "m" in e else "PushLeaf"
 
 
@@ -712,6 +738,8 @@ class Gen:
     # ---- expressions
     def leaf(self, s):
         r = self.r
+        if r.random() < 0.08:  # zero-arity combinators (an empty MismatchesAll / no mismatch at all), at any sort
+            return r.choice([{"op": "MatchesAny", "ms": []}, {"op": "MatchesAll", "ms": [], "fo": r.random() < 0.5}])
         univ = [{"op": "Always"}, {"op": "Never"}]
         if s in ("int", "str"):
             c = [
@@ -772,7 +800,7 @@ class Gen:
         if depth <= 1 or r.random() < 0.15:
             return self.leaf(s)
         d = depth - 1
-        n = r.randrange(1, 5)
+        n = r.randrange(0, 5) if r.random() < 0.15 else r.randrange(1, 5)
         generic = [
             lambda: {"op": "Not", "m": self.expr(s, d)},
             lambda: {"op": "Annotate", "msg": r.choice(("note", "é語'\"\\\n")), "m": self.expr(s, d)},
